@@ -141,14 +141,14 @@ PROPS = {
         trusted_base=TB_COMMON + [
             "refinement level B -> level A (blocks, `used`, packed head word, re-used addresses -> logical indices) is checked by executing the level-A steps alongside every replayed trace (Model/Queue/SpmcSim.lean), not proved",
             "non-atomic slot accesses (`set`/`get`/`copy_to_bulk`) are not hooked: the write is folded into the owner's `tail.index` unsync load, the reads into the taker's `used.fetch_sub` (they are data-race free iff spmc_no_uninit holds)",
-            "address re-use of freed blocks (ABA) is an adversarial choice of the level-B model and whatever the glibc allocator does in the real runs",
+            "address re-use of freed blocks (ABA) is an adversarial choice of the level-B model; in the real runs a recycling #[global_allocator] defined in harness/src/scn/mq_spmc.rs hands freed 32-byte-aligned blocks out again LIFO (active once an mq_spmc scenario was built in the process)",
         ],
         assumptions=[
             "a taker that over-claimed waits until the owner has pushed past its range; if the owner never pushes again it waits for ever - C04 as worded allows this (spmc_claim_completes is the exit condition); the scenarios keep the owner pushing until every stealer has finished",
             "`Queue::len` (unsafe, no in-tree caller) is not modelled; the crossbeam_queue_steal feature (external crate) is not checked",
             "`push`/`Local::pop` are called by one thread per queue (the `Local` handle is not `Clone`)",
         ],
-        rule="det mode: owner (pre-fill/pre-drain to offsets B-2..B+1 of the 32-slot block, then push/pop/is_empty, then keeps pushing until all stealers are done, then Drop) x 1-4 stealers (raw mode: pop/bulk_pop/is_empty on Arc<Queue>; local mode: steal_into their own Local, pop of their own queue, Drop); seeded random schedules with stickiness over every atomic access; non-trivial = at least one failed compare-exchange on a head word; distinct = SHA-1 of the canonical trace",
+        rule="det mode, three kinds of scenario: normal = owner (pre-fill/pre-drain to offsets B-2..B+1 of the 32-slot block, then push/pop/is_empty, then keeps pushing until all stealers are done, then Drop) x 1-4 stealers (raw mode: pop/bulk_pop/is_empty on Arc<Queue>; local mode: steal_into their own Local, pop of their own queue, Drop); tiny = no pre-fill; aba (12%) = one stealer is stalled inside the queue code before its first compare-exchange while the owner fills and drains two blocks, so that the stale head word meets the re-used block address and the stealer over-claims; a recycling allocator in the scenario module re-uses freed block addresses LIFO in all kinds; seeded random schedules with stickiness over every atomic access; non-trivial = at least one failed compare-exchange on a head word; distinct = SHA-1 of the canonical trace",
     ),
     "C11": dict(
         lean_props=["MayVerif.Props.C11"],
